@@ -728,6 +728,10 @@ class Ref:
         if name.startswith("msub_"):
             self.trace.append((name, args))
             return args[0] - args[1]
+        if name in ("after_unit", "around_unit"):
+            vals = [a for a in args if a is not None]        # the unit argument has no value
+            self.trace.append((name, vals))
+            return vals[0] if name == "after_unit" else vals[0] - vals[1]
         if name == "opt_of":
             # Rust: if x & 1 == 1 { Some(x ^ 0x5A5A) } else { None }
             self.trace.append((name, args))
